@@ -1,7 +1,8 @@
 ------------------------------ MODULE C10Judge ------------------------------
 (* Implementation -> specification: judges the records harness/c10_layout.cpp wrote about    *)
 (* what the real DataField/DataFieldSet did with every field sequence, against P (= Own).    *)
-(* Per record: k, p = the sequence; cr = create result; glf/glx/g31 = getLength(part, max)   *)
+(* Per record: k, p = the sequence; own = the admissible map the harness worked with (na =     *)
+(* number of admissible maps); cr = create result; glf/glx/g31 = getLength(part, max)   *)
 (* for max = fixed span / data length / 31, as <<master, slave>>; wr/wl/wn = write result,   *)
 (* usedLength, bytes produced; enc[i] = <<byte, mask>> pairs of the bits that changed in the *)
 (* encoded data when only the value of field i changed; sens[i] = pairs of the bits whose    *)
@@ -28,10 +29,16 @@ PairsOf(pos) == [j \in 1..pos.n |-> <<pos.b + j - 1, Mask(pos.bits)>>]
 Within(ps, pos) == \A x \in 1..Len(ps) : ps[x][1] \in pos.b..(pos.b + pos.n - 1) /\ BitsOf(ps[x][2]) \subseteq pos.bits
 Touched(ps) == {ps[x][1] : x \in 1..Len(ps)}
 
-InDomain(fs, run) ==
+Triples(run) == [x \in 1..Len(run.own) |-> <<run.own[x].b, run.own[x].n, Mask(run.own[x].bits)>>]
+InDomain(fs) ==
   /\ Len(fs) >= 1 /\ \A j \in 1..Len(fs) : fs[j].k \in 1..NK /\ fs[j].p \in Parts
-  /\ run.ok
+  /\ \A run \in PRuns(fs, VarN) : run.ok
   /\ InShape(fs)
+(* the admissible map the harness worked with (it takes the one whose length the real write produced, *)
+(* else the first): all checks are made against this one map, so getLength, read and write have to    *)
+(* agree on one admissible placement                                                                  *)
+HasRun(r) == \E run \in PRuns(FsOf(r), VarN) : Triples(run) = r.own
+RunOf(r) == CHOOSE run \in PRuns(FsOf(r), VarN) : Triples(run) = r.own
 
 (* what encoding may / must touch, given the positions pos a field has *)
 EncOk(ps, k, pos) ==
@@ -44,12 +51,13 @@ SensOk(ps, k, pos) == IF k.ign THEN ps = <<>> ELSE ps = PairsOf(pos)
 
 (* ----------------------------------------- P ----------------------------------------- *)
 Checks(r) ==
-  LET fs == FsOf(r)
-      run == PRun(fs, VarN)
-      L(q) == PLength(run, q)
-      Fx(q) == IF run.st[q].closed THEN L(q) - VarN ELSE L(q)
-  IN IF r.cr # 0 \/ ~InDomain(fs, run) THEN << <<"domain", InDomain(fs, run)>>, <<"create", r.cr = 0>> >>
-     ELSE <<
+  LET fs == FsOf(r) IN
+  IF r.cr # 0 \/ ~InDomain(fs) \/ ~HasRun(r)
+  THEN << <<"domain", InDomain(fs) /\ (r.cr # 0 \/ HasRun(r))>>, <<"create", r.cr = 0>> >>
+  ELSE LET run == RunOf(r)
+           L(q) == PLength(run, q)
+           Fx(q) == PFixedOf(run, q, VarN)
+       IN <<
        <<"getLength", \A q \in Parts :
             /\ r.glf[PI(q)] = Fx(q)
             /\ IF run.st[q].closed THEN r.glx[PI(q)] \in Fx(q)..L(q) /\ r.g31[PI(q)] \in Fx(q)..31
@@ -71,10 +79,10 @@ FirstBad(r) == LET c == Checks(r) IN c[CHOOSE x \in 1..Len(c) : ~c[x][2] /\ \A y
 (* and naming the input class of a rejected record)                                            *)
 SMatches(r) ==
   LET fs == FsOf(r)
-      run == PRun(fs, VarN)
-  IN r.cr = 0 /\ \A q \in Parts :
+      run == RunOf(r)
+  IN r.cr = 0 /\ HasRun(r) /\ \A q \in Parts :
        LET size == PLength(run, q)
-           fixed == IF run.st[q].closed THEN size - VarN ELSE size
+           fixed == PFixedOf(run, q, VarN)
            rr == SReadRun(fs, q, size)
            ww == SWriteRun(fs, q, VarN)
        IN /\ r.g31[PI(q)] = SGetLength(fs, q, 31)
@@ -83,14 +91,13 @@ SMatches(r) ==
           /\ r.wl[PI(q)] = ww.st.off /\ r.wn[PI(q)] = ww.st.off
           /\ \A j \in 1..Len(fs) : fs[j].p = q =>
                /\ EncOk(r.enc[j], Kinds[fs[j].k], ww.pos[j])
-               \* (the data the harness flips bits in is built for P's layout: where the code's layout differs the
-               \* field may see undecodable data, so only a subset of the bits it reads shows up)
+               \* (the data the harness flips bits in is built for the chosen map: where the code's layout differs
+               \* the field may see undecodable data, so only a subset of the bits it reads shows up)
                /\ IF rr.pos[j] = NoPos \/ Kinds[fs[j].k].ign THEN r.sens[j] = <<>> ELSE Within(r.sens[j], rr.pos[j])
 
-Class(r) == IF PRun(FsOf(r), VarN).rsShare /\ SMatches(r) THEN "restart" ELSE "other"
-(* input class of a rejected record: the first failing check, restart/other, and for a composition  *)
-(* failure the type of the field whose text differs between whole-message and per-field decoding  *)
-Sig(r) == <<FirstBad(r), Class(r), IF FirstBad(r) = "composition" /\ r.cmf \in 1..Len(r.k) THEN Kinds[r.k[r.cmf]].t ELSE "">>
+(* input class of a rejected record: the first failing check, and for a composition failure the  *)
+(* type of the field whose text differs between whole-message and per-field decoding             *)
+Sig(r) == <<FirstBad(r), IF FirstBad(r) = "composition" /\ r.cmf \in 1..Len(r.k) THEN Kinds[r.k[r.cmf]].t ELSE "">>
 Judge == \/ i = 0
          \/ Ok(Recs[i]) /\ (SMatches(Recs[i]) \/ PrintT(<<"VF", "DRIFT", i>>))
          \/ ~PrintT(<<"VF", "BAD", i, Sig(Recs[i])>>)
